@@ -176,7 +176,7 @@ def main(argv):
     try:
         curves = ALL_CURVES
         if a.tier == "quick":
-            cfgs = (a.configs.split(",") if a.configs else ["default", "m51", "w32"])
+            cfgs = (a.configs.split(",") if a.configs else ["default", "m51", "w32", "zz32"])
             n = int(4000 * a.scale)
         else:
             cfgs = (a.configs.split(",") if a.configs else ALL_CONFIGS)
